@@ -49,6 +49,7 @@ class TLCResult:
     cases: list = field(default_factory=list)
     notes: list = field(default_factory=list)
     coverage: dict = field(default_factory=dict)  # action name -> (distinct, total)
+    trace: list = field(default_factory=list)     # counterexample states (dicts) when dump_trace=True
     finished: bool = False
     tail: str = ""
     cmd: str = ""
@@ -97,6 +98,7 @@ def run(
     keep_out: str | None = None,
     heap: str = "4g",
     on_line=None,
+    dump_trace: bool = False,
 ) -> TLCResult:
     """Run TLC. `cfg` names a file in spec/cfg/ (without directory); `cfg_text` supplies one inline.
 
@@ -126,6 +128,9 @@ def run(
             cmd += ["-depth", str(depth)]
         if seed is not None:
             cmd += ["-seed", str(seed)]
+        trace_path = os.path.join(meta, "trace.json")
+        if dump_trace:
+            cmd += ["-dumpTrace", "json", trace_path]
         cmd += list(extra or [])
         cmd.append(os.path.join(SPEC_DIR, module + ".tla"))
         res = TLCResult(module=module, cfg=cfg or "<inline>", cmd=" ".join(cmd))
@@ -188,6 +193,13 @@ def run(
         if simulate and res.rc in (0,) :
             res.finished = True
         res.tail = "\n".join(tail[-60:])
+        if dump_trace and os.path.exists(trace_path):
+            try:
+                with open(trace_path) as fh:
+                    ce = json.load(fh).get("counterexample", {})
+                res.trace = [st[1] for st in ce.get("state", [])]
+            except Exception as exc:  # noqa: BLE001
+                res.errors.append(f"unreadable counterexample dump: {exc!r}")
         if keep_out:
             shutil.copy(out_path, keep_out)
         return res
